@@ -412,14 +412,37 @@ func (w *world17) step(op Op17, probe func(string)) (f *fail17, skipped bool) {
 		r := kit.NewRNG(op.V)
 		px := genPixels(r, op.W, op.H, op.Y == 1)
 		ints := make([]int, op.W*op.H)
+		// the bits above the 24 colour bits carry no colour: callers pass
+		// 0xRRGGBB, 0xFFRRGGBB, sign-extended -1 for white, or a mixture
+		topStyle := r.Intn(5)
+		top := func() int {
+			switch topStyle {
+			case 0:
+				return 0xFF000000
+			case 1:
+				return 0
+			case 2:
+				return r.Intn(256) << 24
+			case 3:
+				if r.Chance(1, 2) {
+					return 0
+				}
+				return 0xFF000000
+			default:
+				return -1 << 24 // sign-extended (all higher bits set)
+			}
+		}
+		if topStyle != 0 {
+			probe("probe.rgb_ints_with_other_top_bytes")
+		}
 		for y := 0; y < op.H; y++ {
 			for x := 0; x < op.W; x++ {
 				if op.Y == 1 || r.Chance(1, 2) {
 					v := int(px[y][x])
-					ints[y*op.W+x] = 0xFF000000 | v<<16 | v<<8 | v
+					ints[y*op.W+x] = top() | v<<16 | v<<8 | v
 				} else {
 					rr, gg, bb := r.Intn(256), r.Intn(256), r.Intn(256)
-					ints[y*op.W+x] = 0xFF000000 | rr<<16 | gg<<8 | bb
+					ints[y*op.W+x] = top() | rr<<16 | gg<<8 | bb
 					px[y][x] = byte((rr + 2*gg + bb) / 4)
 				}
 			}
@@ -628,6 +651,26 @@ func (w *world17) step(op Op17, probe func(string)) (f *fail17, skipped bool) {
 		}
 		if got := s.String(); got != string(exp) {
 			return fail("string", "String() differs from the model rendering")
+		}
+		// the half-size preview of a YUV view shows every second pixel of the view
+		if y, ok := s.(*gozxing.PlanarYUVLuminanceSource); ok {
+			tw, th := y.GetThumbnailWidth(), y.GetThumbnailHeight()
+			if tw != m.w/2 || th != m.h/2 {
+				return fail("thumbnail", "thumbnail is %dx%d for a %dx%d view", tw, th, m.w, m.h)
+			}
+			px := y.RenderThumbnail()
+			if len(px) != tw*th {
+				return fail("thumbnail", "RenderThumbnail returned %d pixels for %dx%d", len(px), tw, th)
+			}
+			for ty := 0; ty < th; ty++ {
+				for tx := 0; tx < tw; tx++ {
+					g := uint(m.at(2*tx, 2*ty))
+					if px[ty*tw+tx] != 0xFF000000|g*0x00010101 {
+						return fail("thumbnail", "thumbnail pixel (%d,%d) = %#x, the view's pixel (%d,%d) is %d", tx, ty, px[ty*tw+tx], 2*tx, 2*ty, g)
+					}
+				}
+			}
+			probe("probe.yuv_thumbnail_checked")
 		}
 	case "binarize":
 		// B: 0 hybrid, 1 global. Sequence: matrix, matrix again, rows with reused array, crop, rotate.
